@@ -57,5 +57,5 @@ Extraction "model.ml"
   (* serde, typed data (C16) *)
   to_value_ref from_value_ref ser_sj from_sj_ref shape_ref shape_sj_ref shape_eqb has_type finite_floats
   tser de from_tsj shape_of shape_of_sj fmt_f64_ref fmt_f32_ref fmt_sj_ref de_f64 de_f32 f64_norm f32_norm
-  num_key key_of_f64 nkey_eqb f64_of_f32 f32_of_f64 f32_dr k2_class
-  no_f32 known_class norm sort_maps num_event lossy_ref tsd_eqb null_like.
+  num_key key_of_f64 nkey_eqb f64_of_f32 f32_of_f64
+  no_f32 known_class norm sort_maps num_event tsd_eqb null_like.
